@@ -430,7 +430,7 @@ pub fn deviations(schema: &SchemaModel, q: &Query, cfg: &GenCfg) -> Vec<Query> {
             out.push(q2);
         }
         // Fcf: count filter with a variable
-        for (k, op) in ["=", "<", "<=", ">", ">=", "one_of"].iter().enumerate() {
+        for (k, op) in ["=", "<", "<=", ">", ">=", "one_of", "!=", "not_one_of"].iter().enumerate() {
             if !cfg.allows("Fcf") {
                 break;
             }
